@@ -269,23 +269,42 @@ class Runner:
                 # TRUE^-3): the deviation starts at the listed mechanism
                 self.ctx.event('attributed_via_undecided')
                 return kf
-        # both together
-        feats = ref_features(wb, ast)
-        if {'bool_text_title', 'text_left_str_compare'} <= feats:
-            with Quirk('bool_text_title'), Quirk('text_left_str_compare'):
+        # several together: a mechanism may only come into play once another
+        # one has changed the course of the evaluation (FALSE&TRUE is only
+        # formed after "-30.5"<-4 was answered by spelling), so the touched
+        # features are collected with the already touched mechanisms on
+        kfs = {'bool_text_title': 'KF-C08-01',
+               'text_left_str_compare': 'KF-C09-01'}
+        active = []
+        while True:
+            feats = ref_features(wb, ast, active)
+            new = [q for q in kfs if q in feats and q not in active]
+            if not new:
+                break
+            active += new
+        if len(active) >= 2:
+            ref.QUIRKS.update(active)
+            try:
                 v = ref_value(wb, ast)
+            finally:
+                ref.QUIRKS.difference_update(active)
             if v[0] == 'value' and values_equal(v[1], got[1]):
-                return 'KF-C09-01'
+                self.ctx.event('attributed_via_chain')
+                return kfs[active[0]]
         return None
 
 
-def ref_features(wb, ast):
-    """which risky features does the reference evaluation of this tree touch"""
+def ref_features(wb, ast, quirks=()):
+    """which risky features does the reference evaluation of this tree touch
+    (with the given known mechanisms switched on)"""
     ref.FEATURES.clear()
+    ref.QUIRKS.update(quirks)
     try:
         wb.eval(ast, 'Sheet1')
     except Exception:  # noqa
         pass
+    finally:
+        ref.QUIRKS.difference_update(quirks)
     return set(ref.FEATURES)
 
 
